@@ -29,6 +29,7 @@ case "$pkg" in
     sm3)               src=sm3_replay_test.go ;;
     sm4)               src=sm4_replay_test.go ;;
     sm4guard)          src=sm4_guard_test.go; pkg=sm4; dstname=zz_guard_test.go; testre='^TestVerifGuard$' ;;
+    sm4arm64gcm)       src=sm4_arm64gcm_test.go.tmpl; pkg=sm4; dstname=zz_arm64gcm_test.go; testre='^TestVerifArm64Gcm$'; wholefile=1 ;;
     sm4arm64glue)      src=sm4_arm64glue_test.go.tmpl; pkg=sm4; dstname=zz_arm64glue_test.go; testre='^TestVerifArm64Glue$'; extract=ensureCapacity ;;
     *) echo "run.sh: no replay test for package dir '$pkg'" >&2; exit 2 ;;
 esac
@@ -64,8 +65,34 @@ PY
     srcfile="$tmp/extracted_test.go"
 fi
 
+extra_overlay=""
+if [ -n "${wholefile:-}" ]; then
+    # the whole arm64 glue file, mechanically transformed (see the header of the template)
+    python3 - "$repo/sm4/sm4_gcm_arm64.go" "$here/$src" "$tmp/extracted_test.go" <<'PY'
+import re, sys
+src, tmpl, out = sys.argv[1:4]
+text = open(src).read()
+# drop everything up to and including the import block
+m = re.search(r'^import \((.*?)^\)\n', text, re.S | re.M)
+if m:
+    text = text[m.end():]
+else:
+    text = re.sub(r'^package \w+\n', '', text, flags=re.M)
+    text = re.sub(r'^//go:build.*\n', '', text, flags=re.M)
+# drop body-less declarations of the arm64-only assembly routines
+text = re.sub(r'^//go:noescape\n(?=func xor\d+\()', '', text, flags=re.M)
+text = re.sub(r'^func xor\d+\([^)]*\)[ \t]*\n', '', text, flags=re.M)
+text = text.replace('*sm4GcmAsm)', '*sm4GcmArm64)')
+text = re.sub(r'\bensureCapacity\(', 'ensureCapacityArm64(', text)
+open(out, 'w').write(open(tmpl).read() + '\n' + text)
+PY
+    srcfile="$tmp/extracted_test.go"
+    sed -i 's/unsafePointer(/unsafe.Pointer(/g; s/^import (/import (\n\t"unsafe"/' "$srcfile"
+    extra_overlay=", \"$repo/$pkg/zz_replay_test.go\": \"$here/sm4_replay_test.go\""
+fi
+
 cat > "$tmp/overlay.json" <<EOF
-{"Replace": {"$repo/$pkg/$dstname": "$srcfile"}}
+{"Replace": {"$repo/$pkg/$dstname": "$srcfile"$extra_overlay}}
 EOF
 
 export GOFLAGS=-mod=mod GOPROXY=off GOSUMDB=off GOTOOLCHAIN=local
